@@ -670,6 +670,24 @@ func (r *rig) do(s step) {
 	}
 }
 
+// settle (herd mode, where stack dumps say nothing about one connection):
+// wait until this connection's log has not grown for 2 ms, at most 300 ms.
+func (r *rig) settle() {
+	dl := time.Now().Add(300 * time.Millisecond)
+	last, since := -1, time.Now()
+	for time.Now().Before(dl) {
+		r.mu.Lock()
+		n := len(r.log)
+		r.mu.Unlock()
+		if n != last {
+			last, since = n, time.Now()
+		} else if time.Since(since) > 2*time.Millisecond {
+			return
+		}
+		time.Sleep(200 * time.Microsecond)
+	}
+}
+
 func (r *rig) idle() bool {
 	r.mu.Lock()
 	defer r.mu.Unlock()
@@ -771,6 +789,8 @@ func runScript(seed uint64, sc script, solo bool) []ev {
 	}
 	if solo {
 		r.rest()
+	} else {
+		r.settle()
 	}
 	ok := r.finish()
 	if ok {
